@@ -2,6 +2,7 @@
    A functional model cannot exhibit aliasing; what is proved is the part that is logic:
    the decoders are the canonical programs (C01_all_canonical), whose language has no aliasing or
    input-writing statement form, and every slice they fill is freshly allocated by the same step. *)
+From NV Require Codec.Stmt Codec.StmtProofs.
 From NV Require Import Lib.Base Lib.BV Codec.Lang Codec.Def Codec.Sem Codec.Purity Codec.Final
   C09.Types C09.Check C09.All C19.Globals Gen.GenMsgs Gen.GenTypes.
 From Coq Require Import String.
@@ -36,9 +37,17 @@ Proof. exact encode_into_appends. Qed.
 Theorem C10_codec_imports_pure : codec_imports_ok = true.
 Proof. exact codec_imports_pure. Qed.
 
+(* statement level (Codec/Stmt.v): ANY program of the encoder language -- not only the template --
+   leaves the bytes already in the buffer in place and only appends; the message is an argument that
+   no statement form can write (exec_enc_top returns bytes only); both executions are functions *)
+Theorem C10_programs_append_only : forall names shape_of m l out,
+  Stmt.exec_enc_top names shape_of m l out = (b <- Stmt.exec_enc_top names shape_of m l []%list ;; Ok (out ++ b)%list).
+Proof. exact StmtProofs.exec_enc_appends. Qed.
+
 Print Assumptions C10_all_canonical.
 Print Assumptions C10_buffers_fresh.
 Print Assumptions C10_setlens_allocate.
 Print Assumptions C10_setlen_alloc_meaning.
 Print Assumptions C10_encode_appends.
 Print Assumptions C10_codec_imports_pure.
+Print Assumptions C10_programs_append_only.
